@@ -15,11 +15,10 @@ import Proofs.C13
      bnot bsl bsr band bor bxor · shift-count validators · CastFn / FuncN wrappers ·
      to_toml / to_xml / tojson / to_yaml indent · OptionsFromValue clamps + dump.go arithmetic ·
      Binary index / slice ranges · _intdiv / to_radix / from_radix.
-  FALSE of the current code, stated as `_partial` with a `decide` witness:
-     `_stdio_read(fd; l)` with a negative or huge length (known finding stdio-read-length).
   Found by this check and since fixed in /repo (`decide` witnesses about the old code kept):
      `_tobits({unit:0})` divided by zero; `tojson({indent:-(2^62+1)})` wrapped around to a huge
-     depth; display options with a huge line_bytes never finished / exhausted memory.
+     depth; display options with a huge line_bytes never finished / exhausted memory;
+     `_stdio_read(fd; -1)` was a makeslice panic; `to_radix(1)` never terminated.
   (see known_findings.json)
   What is NOT proved (validated by enumeration only, see lib/props/C13.json): the statement for
   every other registered function, and for the third-party encoders behind to_toml/to_xml/to_yaml.
@@ -345,34 +344,36 @@ theorem dump_unclamped_panics :
 
 /-! ## _stdio_read -/
 
-/-- Known finding stdio-read-length (found by reading while checking which strings the pool lacks,
-    replayed on the real binary): `_stdio_read("stdin"; -1)` — `make([]byte, -1)` panics;
+/-- `_stdio_read(fd; l)` is fault-free for every fd name and every length -/
+theorem stdio_read_total (fd : Bool) (l : Int) : (stdioRead fd l).noFault = true := by
+  unfold stdioRead makeBytes resourceBits maxReadLength
+  split
+  · rfl
+  · split
+    · rfl
+    · rename_i h
+      simp only [Bool.or_eq_true, decide_eq_true_eq, not_or, Int.not_lt, gt_iff_lt] at h
+      have e1 : ¬ ((decide (l < 0) || decide (l > 281474976710656)) = true) := by simp; omega
+      have e2 : ¬ l.toNat > 2 ^ 36 / 8 := by
+        have : (2 : Nat) ^ 36 / 8 = 8589934592 := by decide
+        omega
+      simp only [e1, e2, if_false]
+      rfl
+
+/-- FOUND while checking which strings the pool lacked (finding stdio-read-length, replayed on the
+    real binary, since fixed): `_stdio_read("stdin"; -1)` — `make([]byte, -1)` panics;
     `_stdio_read("stdin"; 100000000000)` cannot be allocated -/
-theorem stdio_read_negative_panics :
-    stdioRead true (-1) = .panic "runtime error: makeslice: len out of range" ∧
-    stdioRead true 9223372036854775807 = .panic "runtime error: makeslice: len out of range" ∧
-    (stdioRead true 100000000000).isResource = true := by
+theorem stdio_read_old_panics :
+    stdioReadOld true (-1) = .panic "runtime error: makeslice: len out of range" ∧
+    stdioReadOld true 9223372036854775807 = .panic "runtime error: makeslice: len out of range" ∧
+    (stdioReadOld true 100000000000).isResource = true := by
   decide
 
-theorem stdio_read_total_false : ¬ ∀ fd l, (stdioRead fd l).noFault = true := by
+theorem stdio_read_old_not_total : ¬ ∀ fd l, (stdioReadOld fd l).noFault = true := by
   intro h
   have := h true (-1)
   revert this
   decide
-
-/-- PARTIAL.  Full statement: `∀ fd l, (stdioRead fd l).noFault` — FALSE (`stdio_read_total_false`).
-    Proved: every length in 0..2^33, every fd name -/
-theorem stdio_read_total_partial (fd : Bool) (l : Int) (h0 : 0 ≤ l) (h1 : l ≤ 8589934592) :
-    (stdioRead fd l).noFault = true := by
-  unfold stdioRead makeBytes resourceBits
-  split
-  · rfl
-  · have e1 : ¬ ((decide (l < 0) || decide (l > 281474976710656)) = true) := by simp; omega
-    have e2 : ¬ l.toNat > 2 ^ 36 / 8 := by
-      have : (2 : Nat) ^ 36 / 8 = 8589934592 := by decide
-      omega
-    simp only [e1, e2, if_false]
-    rfl
 
 /-! ## _tobits -/
 
@@ -526,21 +527,23 @@ theorem mapOutcome_total {α β} (f : α → Outcome β) (hf : ∀ a, (f a).noFa
     intro bs _
     rfl
 
-/-- to_radix on integers: base 0, 1, negative, above 64 — a jq error, a result, or (base 1)
-    non-termination that the fuel cuts; never a fault -/
+/-- to_radix on integers: base 0, 1, negative, above 64 — a jq error or a result; never a fault -/
 theorem to_radix_total (fuel : Nat) (n base : Int) : (toRadix fuel n base).noFault = true := by
   unfold toRadix
   split
   · rfl
-  · apply bind_noFault _ _ (radixChain_total fuel n base)
-    intro chain _
-    split
+  · split
     · rfl
-    · apply bind_noFault _ _ (mapOutcome_total _ (fun x => jqMod_total x base) _)
-      intro ds _
-      split <;> rfl
+    · apply bind_noFault _ _ (radixChain_total fuel n base)
+      intro chain _
+      split
+      · rfl
+      · apply bind_noFault _ _ (mapOutcome_total _ (fun x => jqMod_total x base) _)
+        intro ds _
+        split <;> rfl
 
-/-- `to_radix(1)` of a positive number never terminates (a resource:timeout that ^C interrupts) -/
+/-- before `fix: radix: …` `to_radix(1)` of a positive number never terminated: whatever the
+    fuel, the chain of quotients does not end (observed as resource:timeout) -/
 theorem to_radix_base1_diverges (fuel : Nat) (n : Int) (hn : 0 < n) : radixChain fuel n 1 = .ok none := by
   induction fuel with
   | zero => rfl
@@ -553,27 +556,27 @@ theorem to_radix_base1_diverges (fuel : Nat) (n : Int) (hn : 0 < n) : radixChain
       simp [e1, e2, Outcome.bind]
     simp [hn, h1, Outcome.bind, ih]
 
+theorem to_radix_old_base1_diverges (fuel : Nat) (n : Int) (hn : 0 < n) : toRadixOld fuel n 1 = .ok none := by
+  unfold toRadixOld
+  have h0 : ¬ (n == 0) = true := by simp; omega
+  simp [h0, to_radix_base1_diverges fuel n hn, Outcome.bind]
+
+/-- … and now it is an error -/
+theorem to_radix_small_base_err (fuel : Nat) (n base : Int) (hb : base < 2) :
+    toRadix fuel n base = .err "base too small" := by
+  unfold toRadix; simp [hb]
+
 theorem from_radix_total (cs : List Char) (base : Int) : (fromRadix cs base).noFault = true := by
   unfold fromRadix
-  simp only
-  suffices h : ∀ (l : List Char) (st : Outcome (Int × Int)), st.noFault = true →
-      (l.foldl (fun st c => st.bind fun x =>
-        match radixDigit c with
-        | none => .err "multiply-null"
-        | some d => .ok (x.1 * base, x.2 + x.1 * d)) st).noFault = true by
-    apply bind_noFault
-    · exact h _ _ rfl
-    · intro a _; rfl
-  intro l
-  induction l with
-  | nil => intro st h; exact h
-  | cons c cs ih =>
-    intro st h
-    simp only [List.foldl]
-    apply ih
-    apply bind_noFault _ _ h
-    intro x _
-    split <;> rfl
+  split
+  · rfl
+  · apply bind_noFault
+    · apply mapOutcome_total
+      intro c
+      split
+      · rfl
+      · split <;> rfl
+    · intro ds _; rfl
 
 /-! ## non-vacuity: the hypotheses are satisfiable by non-trivial values and the conclusions are
     exercised on them -/
@@ -610,9 +613,11 @@ example : (8 : Nat) ≤ 8388608 ∧ toJSON (-1) 8 = .err "indent-range" ∧ toJS
 
 /-- to_radix / from_radix / intdiv on boundary bases -/
 example : toRadix 20 255 16 = .ok (some "ff") := by decide
-example : toRadix 20 255 0 = .err "zero-modulo" ∧ toRadix 20 255 65 = .err "base too large"
-    ∧ toRadix 20 255 1 = .ok none ∧ toRadix 20 255 (-1) = .err "zero-modulo" := by decide
-example : fromRadix "ff".toList 16 = .ok 255 ∧ fromRadix "-1".toList 10 = .err "multiply-null" := by decide
+example : toRadix 20 255 0 = .err "base too small" ∧ toRadix 20 255 65 = .err "base too large"
+    ∧ toRadix 20 255 1 = .err "base too small" ∧ toRadixOld 20 255 1 = .ok none
+    ∧ toRadixOld 20 255 (-1) = .err "zero-modulo" := by decide
+example : fromRadix "ff".toList 16 = .ok 255 ∧ fromRadix "-1".toList 10 = .err "invalid char"
+    ∧ fromRadix "9".toList 2 = .err "invalid char" ∧ fromRadix [] 10 = .err "empty string" := by decide
 example : intdiv 7 0 = .err "zero-modulo" ∧ intdiv 7 (-1) = .err "zero-modulo" ∧ intdiv (-7) 2 = .ok 0
     ∧ intdiv 7 2 = .ok 3 := by decide
 
